@@ -85,6 +85,19 @@ def run(v, tier, rng):
             cs.append({"prog": prog, "off": 0, "target": ("abs", est + 1), "origin": 0, "name": name, "mode": m1, "dir": "fwd", "n": 1})
             prog = h1 + [("mn", "DB", [A.hexn(0x90)]), ("config", "BITS", ("num", m2)), ("mn", name, [A.ident("tgt")])] + filler(1) + [("label", "tgt"), ("mn", "DB", [A.hexn(0xAB)])]
             cs.append({"prog": prog, "off": 1, "target": ("end", None), "origin": 0, "name": name, "mode": m2, "dir": "fwd", "n": 1})
+    # forward branches over real statements (not RESB): the target label sits right before the final DB, so the branch must
+    # land on image end - 1 whatever lies in between - every statement kind pass 1 sizes can make the label drift
+    import gen_instr as G
+    far = [("mn", "JMP", [("seg", dt, A.num(16), A.num(27))]) for dt in ("", "DWORD")]
+    sk = [st for st, _ in G.one_stmt_skeleton(tier == "thorough")]
+    sk = sk[::(3 if tier == "thorough" else 9)] + [st for st, _ in G.mem_skeleton(tier == "thorough")][::(5 if tier == "thorough" else 41)]
+    mids = [[f] for f in far] + [[st] for st in sk] + [[far[0], st] for st in sk[::7]]
+    for mode in (16, 32):
+        for name in ("JMP", "JE", "CALL"):
+            for mid in mids:
+                head = [("config", "BITS", ("num", 32))] if mode == 32 else []
+                prog = head + [("mn", "ORG", [A.hexn(0x7c00)]), ("mn", name, [A.ident("tgt")])] + mid + [("label", "tgt"), ("mn", "DB", [A.hexn(0xAB)])]
+                cs.append({"prog": prog, "off": 0, "target": ("end", None), "origin": 0x7c00, "name": name, "mode": mode, "dir": "fwd", "n": 1, "over": True})
     cases = [{"id": str(i), "srcs": [A.p_program(c["prog"])]} for i, c in enumerate(cs)]
     res = lib.run_cases(cases, "c04")
     # correspondence
